@@ -160,6 +160,7 @@ def check_property(prop, tier, seed, keep=False, canary=True):
         return 2
     import jobs as J
     joblist = J.jobs_for(prop, tier)
+    J.set_wanted(joblist)
     if not units and not joblist:
         print('UNDECIDED property=%s reason=no obligations registered' % prop)
         return 2
